@@ -51,10 +51,10 @@ ROUTE = {
     "d4parse": "dhcp", "sub82p": "dhcp",
     "d4msg": "dhcp4",
     "sub82": "ipoe",
-    "sesspap": "sess", "sesschap": "sess", "fzsess": "sess", "bkdhcp6": "sess", "bkrakick": "sess", "bkevd6": "sess", "bkevra": "sess", "bkevl2": "ipoe",
+    "sesspap": "sess", "sesschap": "sess", "fzsess": "sess", "fzseq": "sess", "bkdhcp6": "sess", "bkrakick": "sess", "bkevd6": "sess", "bkevra": "sess", "bkevl2": "ipoe",
     "bkl2gw": "ipoe",
     "attr80": "radius", "fzrad": "radius", "radreply": "radius", "radreqauth": "radius", "radma": "radius", "coaattrs": "radius",
-    "ipoeopts": "ipoe", "l2ppp": "il2tp",
+    "ipoeopts": "ipoe", "l2ppp": "il2tp", "fzipoe": "ipoe",
     "fzgopkt": "shm",
 }
 MODELLED = sorted(k for k in ROUTE if not k.startswith("fz") and not k.startswith("bk") and not (k.startswith("bld") and k not in ("papbld", "chapbld")))
@@ -582,6 +582,72 @@ def gen_cases(rng, tier, budget):
                 add(case("fzsess", [p, ph], fr))
                 add(case("fzsess", [p, ph], fr[:2] + be16(len(fr) - 1 if len(fr) > 4 else len(fr)) + fr[4:]))
 
+    # --- SEQUENCES: one session driven through its phases by valid frames, then mutated frames in every phase -------
+    def lcp_req(i):
+        return b"\x00\xc0\x21" + ppp_frame(1, i, b"\x01\x04\x05\xd4\x05\x06" + rb(rng, 4))[0]
+    def ncp_req(proto, i):
+        body = b"\x03\x06\x00\x00\x00\x00" if proto == 0x8021 else b"\x01\x0a" + rb(rng, 8)
+        return b"\x00" + be16(proto) + ppp_frame(1, i, body)[0]
+    def hostile(k):
+        """mutated / malformed frames for any phase"""
+        out = []
+        for _ in range(k):
+            p = rng.choice([0xc021, 0xc021, 0xc023, 0xc223, 0x8021, 0x8057, 0x0057, 0x1234])
+            fr, lf = ppp_frame(rng.choice([1, 2, 3, 4, 5, 6, 7, 8, 9, 10, 11, 12, 0]), rng.randrange(256),
+                               rng.choice([gen_ppp_opts(rng)[0], gen_pap(rng)[0], gen_chap(rng)[0], rb(rng, rng.randint(0, 40)), b""]))
+            if rng.random() < 0.6:
+                fr = mutate(rng, fr, lf, [])
+            if p == 0x0057:
+                d6 = gen_d6msg(rng)[0]
+                udp6 = be16(546) + be16(547) + be16(8 + len(d6)) + b"\x00\x00" + d6
+                fr = b"\x60\x00\x00\x00" + be16(len(udp6)) + b"\x11\x40" + b"\xfe\x80" + bytes(14) + b"\xff\x02" + bytes(11) + b"\x01\x00\x02" + udp6
+                if rng.random() < 0.5:
+                    fr = mutate(rng, fr, [(4, 2), (44, 2)], [])
+            out.append(b"\x00" + be16(p) + fr)
+        return out
+    for _ in range(250 * scale):
+        steps = []
+        steps += hostile(rng.randint(0, 2))                                  # Establish
+        steps += [lcp_req(1), b"\x01\xc0\x21"] if rng.random() < 0.85 else [b"\x02\xc0\x21", lcp_req(2)]
+        steps += hostile(rng.randint(0, 3))                                  # Authenticate (CHAP challenge outstanding)
+        r = rng.random()
+        if r < 0.6:
+            steps += [b"\x03" + rb(rng, 16) + b"user@isp"]
+        elif r < 0.8:
+            steps += [b"\x00\xc0\x23" + ppp_frame(1, 9, gen_pap(rng)[0])[0]]
+        steps += hostile(rng.randint(0, 2))
+        steps += [b"\x05" + bytes([rng.choice([1, 1, 1, 0])])]             # AAA verdict
+        steps += [b"\x04\x03", b"\x06"] if rng.random() < 0.8 else []    # Network, NCPs started
+        steps += hostile(rng.randint(0, 2))
+        steps += [ncp_req(0x8021, 1), b"\x01\x80\x21", ncp_req(0x8057, 1), b"\x01\x80\x57"][:rng.choice([0, 2, 4, 4])]
+        steps += hostile(rng.randint(0, 3))                                  # Open
+        steps += [b"\x00\xc0\x21" + ppp_frame(9, 5, rb(rng, rng.choice([0, 3, 4, 12])))[0]]
+        steps += [b"\x00\xc0\x21" + ppp_frame(5, 6, b"")[0]] if rng.random() < 0.5 else [b"\x04\x05"]   # Terminate
+        steps += hostile(rng.randint(0, 3))
+        steps += [b"\x07"] if rng.random() < 0.5 else []
+        steps += hostile(rng.randint(0, 2))
+        add(case("fzseq", [rng.choice([1, 1, 1, 0, 2])], *steps))
+    # IPoE: DISCOVER .. ACK, then mutated RELEASE / INFORM / DECLINE / relay-server frames on the same component
+    def d4(mt, xid, mac, extra=b"", op=1):
+        o = bytes([53, 1, mt]) + extra + b"\xff"
+        return bytes([op, 1, 6, 0]) + xid + bytes(4) + bytes(16) + mac + bytes(10) + bytes(192) + b"\x63\x82\x53\x63" + o
+    for _ in range(120 * scale):
+        mac, xid = b"\xaa\xbb\xcc" + rb(rng, 3), rb(rng, 4)
+        o82x = b"\x52\x0a\x01\x03abc\x02\x03xyz" if rng.random() < 0.4 else b""
+        host = bytes([12, 4]) + b"cpe1" if rng.random() < 0.5 else b""
+        steps = [d4(1, xid, mac, host + o82x)]
+        steps += [d4(2, xid, mac, bytes([54, 4, 10, 0, 0, 1, 51, 4, 0, 0, 14, 16]), op=2)] if rng.random() < 0.6 else []
+        steps += [d4(3, xid, mac, bytes([50, 4, 10, 0, 0, 9, 54, 4, 10, 0, 0, 1]) + o82x)]
+        steps += [d4(5, xid, mac, bytes([54, 4, 10, 0, 0, 1, 51, 4, 0, 0, 14, 16]), op=2)] if rng.random() < 0.6 else []
+        tail = []
+        for _ in range(rng.randint(1, 5)):
+            m = d4(rng.choice([7, 8, 4, 3, 1, 6, 5, 2, 0, 9]), rng.choice([xid, rb(rng, 4)]), rng.choice([mac, rb(rng, 6)]),
+                   rng.choice([b"", o82x, host, bytes([50, 4]) + rb(rng, 4), bytes([82, 3, 1, 9, 1])]), op=rng.choice([1, 1, 2]))
+            if rng.random() < 0.6:
+                m = mutate(rng, m, [(2, 1), (241, 1), (244, 1)], [])
+            tail.append(m)
+        steps += tail
+        add(case("fzipoe", [rng.randrange(2)], *steps))
     # --- pkg/ppp ---------------------------------------------------------------------------------------------------
     for which in (0, 1, 2):
         for s in short_strings(tier, which == 0):
